@@ -61,6 +61,7 @@ _real = {
     "uuid.uuid4": uuid.uuid4,
     "tempfile._get_candidate_names": tempfile._get_candidate_names,
     "shutil._use_fd_functions": shutil._use_fd_functions,
+    "shutil._USE_CP_SENDFILE": shutil._USE_CP_SENDFILE,
 }
 
 # errnos each kind of call can really return (see DESIGN.md 2.2): verdicts
@@ -241,7 +242,7 @@ class SimOS:
         binary = "b" in mode
         rawmode = "".join(c for c in mode if c in "rwax+")
         # opening for write creates/truncates: a durable effect, so gated
-        self.gate("open", path, 0)
+        self.gate("open", path, rawmode)
         raw = _SimFileIO(self, path, rawmode)
         try:
             if buffering == 0:
@@ -380,6 +381,7 @@ class SimOS:
         uuid.uuid4 = self._uuid4
         tempfile._get_candidate_names = self._candidate_names
         shutil._use_fd_functions = False
+        shutil._USE_CP_SENDFILE = False  # copyfile must go through the write seam
         self._old_hook = sys.unraisablehook
         sys.unraisablehook = _quiet_unraisable(self._old_hook)
         self._extra_patches = []
@@ -413,6 +415,7 @@ class SimOS:
         uuid.uuid4 = _real["uuid.uuid4"]
         tempfile._get_candidate_names = _real["tempfile._get_candidate_names"]
         shutil._use_fd_functions = _real["shutil._use_fd_functions"]
+        shutil._USE_CP_SENDFILE = _real["shutil._USE_CP_SENDFILE"]
         sys.unraisablehook = self._old_hook
         for mod, attr, old in self._extra_patches:
             setattr(mod, attr, old)
